@@ -297,6 +297,14 @@ def check(P: Project, R: Report) -> None:
     for st, node in out.ret:
         where = f"{hm.module.rel}:{node.lineno}"
         v = node.value
+        if isinstance(v, ast.Name):
+            # a pair kept under a name (`no_reply = (None, None)` … `return no_reply`): read as the pair it holds on this path
+            try:
+                pv_ = ast.parse(subst_text(v, st), mode="eval").body
+                if isinstance(pv_, ast.Tuple) and len(pv_.elts) == 2:
+                    v = pv_
+            except SyntaxError:
+                pass
         resp = v.elts[0] if isinstance(v, ast.Tuple) and v.elts else v
         resp_t = subst_text(resp, st) if resp is not None else "None"
         is_list = f"isinstance({msg_p}, list)" in st.lits
